@@ -79,6 +79,8 @@ def arg_for12(fname, i, pn, pt, writer):
     if (fname, pn) in IGNORED_PARAMS:
         return v, kind, []
     t = pt.replace("const ", "").strip()
+    if fname == "cg_boco_normal_write" and pn == "NormalListFlag":
+        v = "1"           # with the flag 0 the list and its NormalDataType are (legitimately) ignored
     if t == "int" and pn in INDEX and kind != "index" and kind not in ("handle", "special"):
         kind, inv = "index", [("index-0", "0", 1), ("index--1", "-1", 1), ("index-count+1", "1000", 1), ("index-INT_MAX", "INT_MAX", 1)]
     if kind == "enum":
